@@ -158,6 +158,22 @@ CLAIMED["C12"] = dict(
     technique="Lean 4 proof of the text-level round trip and of the engine's processing order + end-to-end differential correspondence + round-trip oracle",
     design="§5 C12")
 
+CLAIMED["C14"] = dict(
+    text=("Lean theorems for every text, edit list and mode (only hypothesis: the recorded fuzzy-regex spans end inside "
+          "the text): C14_reject_lossless (rejected reading == input), C14_render_flat (the string built by right-to-left "
+          "splicing is the rendering of a flat segment list: balanced, not nested, not cut), C14_accept_exact (accepted "
+          "reading == simultaneous replacement of every kept match by its new text), C14_highlight_only, "
+          "C14_unmatched_no_trace / C14_unmatched_appended, C14_index_is_position. Model of apply_edits_to_markdown line by "
+          "line (exact and smart-quote stages, safe boundaries, refinement, marker hoisting, overlap filter, descending "
+          "splicing); the fuzzy regular expression's span is a recorded parameter. Correspondence: output string of the "
+          "real function vs the model on every case (exhaustive short texts x targets x new texts x modes, random "
+          "Markdown texts). Oracle: independent CriticMarkup parser on the real output — reject view, balance/nesting, "
+          "no trace of edits that cannot match (metamorphic), one suggestion per exact unique disjoint edit, accept view "
+          "== replacement, highlight-only wrappers, displayed indexes."),
+    note="texts/targets/comments without CriticMarkup delimiters; `re` and the fuzzy pattern are outside the model.",
+    technique="Lean 4 proof (fold invariants over the right-to-left splicing, homomorphic views) + differential correspondence + parser oracle",
+    design="§5 C14")
+
 PENDING = {
 }
 
